@@ -97,6 +97,7 @@ def run(ctx):
     r10_5(ctx, handlers)
     r10_7(ctx)
     r10_8(ctx)
+    r10_11(ctx)
     r10_10(ctx, handlers)
     # R10.6
     for f, c, table, multi in ds:
@@ -386,12 +387,126 @@ def r10_7(ctx):
             enums = find_all(e, lambda y: y[0] == "call" and ecall_matches(y, r"Iterator>?::enumerate$"))
             where = b.line_at(loc)
             if not enums:
-                ctx.undecided("R10.9", f, "initial-indices-enumerate-the-source", where, "no enumerate() in the provenance of filtered_indices: %s" % fmt(e, 4))
+                verdict = counter_idiom(F, f, b)
+                if verdict is None:
+                    ctx.undecided("R10.9", f, "initial-indices-enumerate-the-source", where, "no enumerate() in the provenance of filtered_indices: %s" % fmt(e, 4))
+                elif verdict[0]:
+                    ctx.holds("R10.9", f, "initial-indices-enumerate-the-source", where, verdict[1])
+                else:
+                    ctx.violated("R10.9", f, "initial-indices-enumerate-the-source", where, verdict[1])
                 continue
             below = find_all(enums[0][3][0], lambda y: y[0] == "call" and isinstance(y[1], str) and re.search(POS_CHANGING, y[1]))
             ctx.verdict(not below, "R10.9", f, "initial-indices-enumerate-the-source", where, "enumerate() is applied to the unfiltered input",
                         "`%s` numbers the initial items with enumerate() *after* `%s`: the recorded indices are positions in the filtered output, not in the source, so every later positional diff is mapped to the wrong item" % (
                             f.path, below[0][1].split("::")[-1] if below else ""))
+
+
+def r10_11(ctx):
+    """source positions of a chunk of new items (Append / Reset / constructor) are recorded by position in the *unfiltered* chunk:
+    (a) an `enumerate()` whose indices end up in the kept-index list sits below every position-changing adaptor (filter, filter_map,
+    skip ..); (b) a running counter that is pushed onto the kept-index list does not start from the kept-index list itself (the last
+    kept index + 1 forgets the rejected items behind it) - it starts at 0 or at the recorded source length."""
+    F = ctx.facts
+    POS_CHANGING = r"Iterator>?::(filter|filter_map|skip|skip_while|take_while|step_by|rev|flat_map|flatten|chain|dedup|scan|map_while)$"
+    n = 0
+    for f in F.find(crate=UT):
+        if not f.built or "vector::filter::" not in f.path:
+            continue
+        b = f.built
+        # (a)
+        for blk, t in b.calls(r"Iterator>?::enumerate$"):
+            recv = b.expr_of_op(t["args"][0])
+            below = find_all(recv, lambda y: y[0] == "call" and isinstance(y[1], str) and re.search(POS_CHANGING, y[1]))
+            # does a consumer of this enumeration push onto a VecDeque<usize> (the kept list)?
+            consumers = [F.fns.get(f.crate + "::" + g_) for blk2, t2 in b.calls() for g_ in (t2.get("garg_defs") or []) if g_]
+            pushes = any(c is not None and c.built and c.built.calls(r"VecDeque::<.*>::push_back$") for c in consumers) or bool(b.calls(r"VecDeque::<.*>::push_back$"))
+            if not pushes:
+                continue
+            n += 1
+            ctx.verdict(not below, "R10.11", root_fn(F, f), "chunk-positions-are-source-positions:enumerate", b.line_at((blk, 10 ** 6)), "enumerate() is applied to the unfiltered chunk",
+                        "`%s` numbers the items of a chunk with enumerate() *after* `%s`: the recorded indices are positions among the kept items, not in the source, so later positional diffs are mapped to the wrong item" % (
+                            f.path, below[0][1].split("::")[-1] if below else ""))
+        # (b)
+        if f.kind != "closure":
+            continue
+        cb = b
+        if not cb.calls(r"VecDeque::<.*>::push_back$"):
+            continue
+        incs = []
+        for loc, s_ in cb.iter_stmts():
+            if s_["k"] != "assign" or not s_["place"]["proj"] or s_["place"]["l"] != 1:
+                continue
+            nm = (last_field(s_["place"]) or "").lstrip("*&").split(".")[-1]
+            e2 = cb.expr_of_rv(s_["rv"], 8, ())
+            adds = find_all(e2, lambda y: y[0] == "bin" and y[1].startswith("Add"))
+            if adds and is_const_int(adds[0][3], 1) and mentions_field(adds[0][2], nm):
+                incs.append(nm)
+        if not incs:
+            continue
+        nm = incs[0]
+        parent = F.fns.get(f.crate + "::" + (f.raw.get("parent") or ""))
+        if parent is None or not parent.built:
+            continue
+        pb = parent.built
+        for i, l in enumerate(pb.locals):
+            if l.get("name") != nm:
+                continue
+            whole, _ = pb.defs
+            ds = whole.get(i, [])
+            if len(ds) != 1:
+                continue
+            loc, kind, payload = ds[0]
+            e = pb.expr_of_rv(payload, 10, (), loc) if kind == "assign" else pb.expr_of_call(payload, 10, (), loc)
+            n += 1
+            from_kept = contains(e, lambda y: y[0] == "call" and ecall_matches(y, r"VecDeque::<.*>::(back|front|len|get|iter|last)$|::last$"))
+            ctx.verdict(not from_kept, "R10.11", root_fn(F, parent), "chunk-positions-are-source-positions:counter", pb.line_at(loc), "the counter `%s` starts at `%s`" % (nm, fmt(e, 3)),
+                        "`%s` starts the source-index counter `%s` from the kept-index list (`%s`): rejected items at the end of the source (or a source with no kept item at all) are not counted, so the items of the new chunk are recorded at too small source indices" % (
+                            parent.path, nm, fmt(e, 4)))
+    ctx.floor("R10.11", n, 1)
+
+
+def counter_idiom(F, f, b):
+    """the other way of numbering the initial items: a per-item closure given to `retain` / `for_each` on the source vector pushes a
+    captured counter that starts at 0 and is incremented by 1 per call (R10.8 decides "on every path"). Decided here: the counter
+    starts at 0, the pushed value is the counter, and on the path of a call the push comes before the increment.
+    returns (ok, text) or None when the idiom is not present."""
+    for c in F.children.get(f.key, []):
+        if c.kind != "closure" or not c.built:
+            continue
+        cb = c.built
+        pushes = [(blk, t) for blk, t in cb.calls(r"VecDeque::<.*>::push_back$|Vec::<.*>::push$")]
+        incs = []
+        for loc, s_ in cb.iter_stmts():
+            if s_["k"] != "assign" or not s_["place"]["proj"] or s_["place"]["l"] != 1:
+                continue
+            nm = (last_field(s_["place"]) or "").lstrip("*&").split(".")[-1]
+            e2 = cb.expr_of_rv(s_["rv"], 8, ())
+            adds = find_all(e2, lambda y: y[0] == "bin" and y[1].startswith("Add"))
+            if adds and is_const_int(adds[0][3], 1) and mentions_field(adds[0][2], nm):
+                incs.append((loc, nm))
+        if not pushes or not incs:
+            continue
+        nm = incs[0][1]
+        # the closure is handed to a whole-vector traversal of the parameter
+        used = [t for blk, t in b.calls(r"GenericVector::<.*>::(retain|iter|into_iter)$|Iterator>?::for_each$") if c.path in (t.get("garg_defs") or []) or any(isinstance(g_, str) and g_ == c.path for g_ in (t.get("garg_defs") or []))]
+        pblk, pt = pushes[0]
+        pushed = cb.expr_of_op(pt["args"][1])
+        is_counter = strip(pushed)[0] == "field" and strip(pushed)[2] == nm
+        # initial value of the captured local in the parent: a constant 0
+        init0 = False
+        for i, l in enumerate(b.locals):
+            if l.get("name") == nm:
+                whole, _ = b.defs
+                ds = whole.get(i, [])
+                init0 = len(ds) == 1 and ds[0][1] == "assign" and ds[0][2]["k"] == "use" and ds[0][2]["op"]["k"] == "const" and ds[0][2]["op"].get("int") == 0
+        before = not any(pblk in cb.reachable_from(loc[0]) and pblk != loc[0] for loc, _ in incs)
+        if not used:
+            return None
+        if is_counter and init0 and before:
+            return True, "the initial items are numbered by a captured counter that starts at 0, is pushed for kept items and incremented once per item after the push"
+        why = "does not push the counter" if not is_counter else ("does not start at 0" if not init0 else "is incremented before it is pushed")
+        return False, "`%s` numbers the initial items with the counter `%s`, which %s: the recorded source indices of the kept items are wrong from the start" % (f.path, nm, why)
+    return None
 
 
 def r10_8(ctx):
